@@ -80,7 +80,7 @@ func c03Apply(c *vfCtx, cs c03Case, checkFrom int) (key uint64, ok bool) {
 		mk := t.mark()
 		cl.do(t, dir)
 		got := t.outcome(mk)
-		want, slot, id := m.call(op.Test, cl, op.Val)
+		want, slot, id := m.call(op.Test, cl, vfFormat(cl))
 		if i < checkFrom {
 			continue
 		}
